@@ -464,6 +464,30 @@ def run(run):
                      sample={'front': front, 'framing': framing, 'class': cls, 'reads': [x.hex()[:80] for x in reads[:4]], 'total_bytes': len(data),
                              'verdict': 'survived, store justified, probe answered' if ok else 'differs'},
                      sample_class=(front, cls))
+    # well-framed writes just beyond the quantity limits against tables big enough to hold them (they must change nothing)
+    if run.shard in (None, 0):
+        for front, framing in FRONTS:
+            if framing == 'tls' or STALLS[0] >= 3 or FE.STALL_COUNT[0] >= 6:
+                continue
+            for k in range(run.scale(2, 12)):
+                z = bool(k % 2)
+                layout = {'single': True, 'zero_mode': z, 'units': {UNIT: {'c': SM.big_block_spec(True, z), 'd': SM.big_block_spec(True, z),
+                                                                           'i': SM.big_block_spec(False, z), 'h': SM.big_block_spec(False, z), 'alias': {}}}}
+                a = r.randrange(0, 60000)
+                q15 = r.choice([1969, 1970, 1976, 1999, 2000])
+                pdus = [S.encode({'dir': REQ, 'fc': 15, 'address': a, 'bits': [True] * 8})[:3] + bytes([q15 >> 8, q15 & 0xFF, (q15 + 7) // 8]) + bytes([0xFF] * ((q15 + 7) // 8)),
+                        bytes([16, a >> 8, a & 0xFF, 0, 124, 248]) + bytes([0x12, 0x34] * 124),
+                        bytes([23, 0, 1, 0, 1, a >> 8, a & 0xFF, 0, 122, 244]) + bytes([0x56, 0x78] * 122)]
+                pdu = pdus[k % 3] if framing != 'rtu' or len(pdus[k % 3]) <= 253 else pdus[0]
+                data = ADU.build(framing, UNIT, pdu, tid=r.randrange(65536))
+                m, good = valid_frame(r, framing, layout, uniq, write=True)
+                data = data + good
+                case = {'front': front, 'framing': framing, 'layout': layout, 'reads': [data] if front not in FE.DATAGRAM else [data[:len(data) - len(good)], good], 'class': 'limit-writes'}
+                ok = check(run, case)
+                run.count('class:limit-writes')
+                run.case(h64((front, framing, data)), True,
+                         sample={'front': front, 'framing': framing, 'class': 'limit-writes', 'first_pdu': pdu[:8].hex(), 'total_bytes': len(data),
+                                 'verdict': 'survived, store justified, probe answered' if ok else 'differs'}, sample_class=(front, 'limit-writes'))
     if run.thorough and run.shard in (None, 0):
         from . import loopback
         loopback.hostile(run, r, uniq, 120, gen_layout, hostile_stream, split, [c for c in CLASSES if c != 'blob'], unjustified_changes, probe_reads)
